@@ -55,7 +55,8 @@ type Term struct {
 	val     uint64 // OpConst: value (masked); OpVar: variable index
 	a, b, c *Term
 	id      int32
-	sent    bool // defined in the solver for the current path
+	sv      int32 // support: -1 none, >=0 the single variable index, -3 several variables
+	sent    bool  // defined in the solver for the current path
 }
 
 type termKey struct {
@@ -101,7 +102,21 @@ func (tt *TermTable) mk(op Op, w uint8, val uint64, a, b, c *Term) *Term {
 	if t, ok := tt.tab[k]; ok {
 		return t
 	}
-	t := &Term{op: op, w: w, val: val, a: a, b: b, c: c, id: tt.next}
+	t := &Term{op: op, w: w, val: val, a: a, b: b, c: c, id: tt.next, sv: -1}
+	if op == OpVar {
+		t.sv = int32(val)
+	} else {
+		for _, ch := range [3]*Term{a, b, c} {
+			if ch == nil || ch.sv == -1 {
+				continue
+			}
+			if t.sv == -1 {
+				t.sv = ch.sv
+			} else if t.sv != ch.sv {
+				t.sv = -3
+			}
+		}
+	}
 	tt.next++
 	tt.tab[k] = t
 	return t
